@@ -451,7 +451,36 @@ def r04_9(ctx):
                       f"(disjoint intervals no longer independent)", "dtype=np.uint64")
     if n < 2:
         raise AnalysisError(f"only {n} generate_state call(s) found in the Brownian package")
-    ctx.floor("R04.9", 2)
+    # ... and the generator that consumes the seed must use all of it.  Modelling fact about the library underneath (not
+    # visible in the repository): torch's CPU generator is a Mersenne twister seeded with the low 32 bits of the seed
+    # only (manual_seed(s) and manual_seed(s + (7 << 32)) give the same stream); its CUDA generator (Philox) and numpy's
+    # bit generators take 64 bits and more.  So torch.Generator(device).manual_seed(seed) is a 32-bit consumer unless
+    # the path to it excludes CPU devices.
+    from .c05 import seeded_generator
+    m = 0
+    for fi in model.funcs_in("torchsde._brownian"):
+        if isinstance(fi.node, ast.Lambda):
+            continue
+        for c in astq.calls(fi):
+            sg = seeded_generator(fi, c)
+            if sg is None:
+                continue
+            m += 1
+            kind, seed, ctor = sg
+            ok = True
+            if kind == "torch":
+                conds = [(ast.unparse(cd), pol) for cd, pol, _ in astq.path_conditions(fi, c)]
+                cpu_excluded = any("'cpu'" in t and (("==" in t and not pol) or ("!=" in t and pol)) for t, pol in conds)
+                ok = cpu_excluded
+            rep.analysed(fi)
+            rep.check(ok, "R04.9", astq.loc(fi, c), f"{fi.key}::R04.9::seed-consumer::{kind}",
+                      f"`{ast.unparse(c)[:80]}` may run on a CPU device, where torch's generator keeps only the low 32 bits "
+                      f"of the seed: the 64-bit node seeds collide again at the 32-bit birthday bound (248060 seeds of a "
+                      f"60000-step solve: 4 pairs of nodes with the identical noise tensor)",
+                      "the generator consumes the full seed")
+    if m < 1:
+        raise AnalysisError("no seeded generator construction found in the Brownian package")
+    ctx.floor("R04.9", 3)
 
 
 def run(ctx):
